@@ -3,6 +3,7 @@
 //! Model checking over record streams: all streams up to a length bound over an alphabet of site
 //! kinds, in three modes, each executed on the real binary and compared with the reference.
 
+use crate::refmodel::RefArray;
 use crate::{
     cli::{parse_f64_tokens, parse_text_spectrum, run_sfs, Out, Scratch, Stdin},
     createmodel::{ref_create, Cls},
@@ -542,6 +543,49 @@ pub fn run(tier: Tier) -> i32 {
             extra: vec![],
         });
     }
+    // scripts over the public reader interface that concern this property (shared with C11)
+    {
+        let (n, viols) = super::c11::scripts_for("C10", "accounting", tier);
+        for (k, w, j) in viols {
+            rep.violation(k, w, j);
+        }
+        rep.part(Part {
+            name: "lib: scripts over the public reader interface".into(),
+            evaluations: n,
+            nontrivial: n,
+            note: "every sequence of 1..3 (thorough 4) symbols over {six record kinds, records with a non-diploid genotype, a transient I/O error, an early end, a change of the column layout} under six set-ups: every call of read_site returns counted / insufficient / error / done exactly as its own step implies".into(),
+            exhaustive: true,
+            extra: vec![],
+        });
+    }
+    // the library's writers and readers on plain streams (writers that take a few bytes per call and
+    // implement only write / flush, a writer that is full, buffered readers of small capacities)
+    {
+        let spectra: Vec<RefArray> = vec![RefArray::from_fn(&[5, 5], |f, _| (f % 3) as f64), RefArray::from_fn(&[9], |f, _| (f % 4) as f64 + 0.5)];
+        let mut n = 0u64;
+        for x in &spectra {
+            for precision in [0usize, 6] {
+                n += 1;
+                let scs = crate::subject::scs_from_ref(x);
+                let r = crate::verdict::catch(|| crate::subject::io_through_plain_streams(&scs, precision));
+                let problem = match r {
+                    Ok(p) => p,
+                    Err(p) => Some(format!("panic: {p}")),
+                };
+                if let Some(why) = problem {
+                    rep.violation("C10|lib|plain-streams".to_string(), format!("spectrum of shape {:?} at precision {precision}: {why}", x.shape), J::obj([("kind", J::s("plain-streams")), ("shape", J::usizes(&x.shape))]));
+                }
+            }
+        }
+        rep.part(Part {
+            name: "lib: no partial output through plain writers".into(),
+            evaluations: n,
+            nontrivial: n,
+            note: "each spectrum in text and npy through writers accepting 1 / 7 / 64 bytes per call (only write and flush implemented): the bytes a Vec receives; into a writer that is full (Ok(0)) after 0, 1, half, all but one byte: not a success; the npy bytes read back through buffered readers of capacity 1, 3, 7, 8, 12, 20, 100, 127, 129".into(),
+            exhaustive: true,
+            extra: vec![],
+        });
+    }
     // outputs of several thousand cells
     {
         let wj: Vec<Option<&str>> = vec![None, Some("17,16,17"), Some("17,15,16")];
@@ -596,6 +640,9 @@ pub fn run(tier: Tier) -> i32 {
 }
 
 pub fn replay(case: &J) -> Option<Vec<String>> {
+    if case.get("kind").and_then(|k| k.as_str()) == Some("c10-script") {
+        return super::c11::replay_script(case);
+    }
     if case.get("kind").and_then(|k| k.as_str()) == Some("c10-verbosity") {
         let st = parse_stream(case.get("stream")?.as_str()?)?;
         let flag = case.get("flag")?.as_str()?.to_string();
